@@ -14,8 +14,12 @@ RULE = ('LISTS: (L1) every labelled list tree over {itemize,enumerate,descriptio
         '<= T items in total, item content in {one paragraph, two paragraphs, text+quote, text+tabular, bare nested list, '
         'text+nested list+text} x optional [term], typed tight and (smaller bound) with blank lines around items; (L2) every unlabelled shape of depth <= D with <= m items per list '
         '(<= S items in total), labelled by 3 kind rotations x 6 leaf-content rotations (menu plus quote-holding-a-list) x term pattern. '
+        '(LS) under the article class, for d = 2..4: every chain (6 kind patterns; thorough: all 3^(d-1)) of d-1 single-item lists '
+        'whose innermost item holds two sibling lists of 1-3 items each, all 9 kind pairs, with or without text around '
+        'them, an enumerate sibling also with \\setcounter{enum..}{4} before its first item; whenever a class is loaded every '
+        'item must carry position start+1.. in order (enumerate: a ref showing that number). '
         'TABLES: (T1) every preamble of n columns over column types x every subset of the n+1 bar positions x every '
-        'spelling (plain, spaced, @{} at every gap on either side of a bar, every *{k}{unit} folding with 1- and 2-column units) x 3 bodies; '
+        'spelling (plain, spaced, @{} at every gap on either side of a bar, >{..} before / <{..} after every column, every *{k}{unit} folding with 1- and 2-column units) x 3 bodies; '
         '(T2) every span layout of an n x r grid with <= 2 \\multicolumn cells (all spans, all positions, incl. span 1) x '
         'every subset of the r+1 row boundaries carrying \\hline x (no \\cline | one \\cline{i-j}, every boundary, every '
         'range that is a union of whole cells of both adjacent rows) x preamble/multicolumn-spec pairs; (T2C) the same layouts x '
@@ -24,11 +28,20 @@ RULE = ('LISTS: (L1) every labelled list tree over {itemize,enumerate,descriptio
         'from {word, two words, two paragraphs, empty, unbraced \\bfseries, {\\bf ..}, $..$, \\textbf, nested tabular, nested array in $ $, itemize, \\def+use, '
         'use of outer \\def} without all-empty rows, plus multicolumn contents; (T4) row terminator / whitespace / '
         'environment (tabular, tabular[t], tabular*, array in \\[ \\] and $ $) / wrapper (bare, article, list item, center) '
-        'spellings x 10 bodies. Every text leaf is a unique marker word. Non-trivial: >= 2 items / >= 2 cells; distinct = '
+        'spellings x 10 bodies; (T5) 1-2 (thorough 3) content rows with <= 2 (3) rows without content (`& &` or nothing before \\\\) '
+        'before, between and after them x every subset of the written boundaries carrying \\hline, + one aligned \\cline; '
+        '(T6) \\vline at the start / end / both of every subset of the cells of a row x 3 preambles; rows wider than the '
+        'preamble (\\multicolumn reaching beyond the last column, surplus ordinary cell) x every bar subset. Every text leaf is a unique marker word. Non-trivial: >= 2 items / >= 2 cells; distinct = '
         'distinct source text; outcomes = distinct observed shapes')
 ASSUMPTIONS = [
     'oracle: fold over the generated AST using the LaTeX rules quoted in vp/refs/c10_shape.py; no TeX binary to cross-check',
-    'only full rows (spans sum to the declared column count) and rows with at least one non-empty cell are generated',
+    'rows are full (spans sum to the declared column count) except in family T6; rows without content (T5) are '
+    'expected to vanish and a rule written next to them to lie on the boundary between the nearest surviving rows',
+    'item numbers: plasTeX steps its enum counter for every \\item of every list kind (also \\item[..]); the oracle '
+    'asks for position 1..n in writing order, which is what the DOM offers to renderers (LaTeX itself would not '
+    'number itemize/description items nor \\item[..]); compared only when a document class has created the counters',
+    '>{..} and <{..} carry declarations invisible to the observation (\\raggedright, \\relax): only "not a column, '
+    'argument consumed" is checked, not whether the material is inserted into the cells',
     '\\cline ranges are restricted to unions of whole cells of both adjacent rows, so that a per-cell border '
     'representation can express the rule exactly whichever adjacent row carries it',
     'borders are read from the border-(top|bottom|left|right)* keys of ArrayCell.style; the text-align key of every '
@@ -102,6 +115,8 @@ def segments(node):
 def observe_list(node):
     from plasTeX.DOM import Node
     items = []
+    # item numbers exist only when the document class has created LaTeX's enum counters
+    withpos = 'enumi' in node.ownerDocument.context.counters
     for c in node.childNodes:
         if c.nodeType == Node.TEXT_NODE:
             if str(c).strip():
@@ -112,7 +127,12 @@ def observe_list(node):
             if term is not None:
                 tt = R.MARK.findall(term.textContent if hasattr(term, 'textContent') else str(term))
                 term = tt[0] if len(tt) == 1 else tuple(tt)
-            items.append((term, segments(c)))
+            pos = None
+            if withpos:
+                ref = c.ref
+                reftext = ''.join(ref.textContent.split()) if ref is not None and hasattr(ref, 'textContent') else None
+                pos = (c.position, reftext if node.nodeName == 'enumerate' else None)
+            items.append((term, pos, segments(c)))
         elif c.nodeName == 'par' and not c.textContent.strip():
             continue
         else:
@@ -303,6 +323,86 @@ def gen_T2C(n, r, maxmc, pair):
                                 rules = [list(x) for x in rules]
                                 rules[b] = [rules[b][0], rules[b][2], rules[b][1]]
                             yield {'fam': 'table', 'ast': t_ast(cols, bars, rows, rules)}
+
+
+def gen_T5(n, r, maxempty):
+    """rows without content (all cells empty `& &`, or nothing before \\\\) before, between and after the content rows,
+    up to maxempty of them, x every subset of the written row boundaries carrying \\hline (+ one aligned \\cline)"""
+    cols, bars = _pair(n, 'alt')
+    forms = [[[1, None, 'E'] for _ in range(n)], []] if n > 1 else [[]]
+    contents = [plain_rows(n, r)]
+    if n == 2:
+        contents.append([[[2, 'c|', 'M']]] + plain_rows(n, r - 1))
+
+    def fills(gaps, budget):
+        # every way to put <= budget empty rows (ordered, each in one of the forms) into `gaps` gaps
+        if gaps == 0:
+            yield []
+            return
+        for k in range(budget + 1):
+            for fs in itertools.product(range(len(forms)), repeat=k):
+                for rest in fills(gaps - 1, budget - k):
+                    yield [list(fs)] + rest
+    for content in contents:
+        for fill in fills(r + 1, maxempty):
+            if not any(fill):
+                continue            # tables without empty rows belong to T2
+            rows = []
+            for g in range(r + 1):
+                rows += [[list(c) for c in forms[f]] for f in fill[g]]
+                if g < r:
+                    rows.append(content[g])
+            R = len(rows)
+            final = 1 if R and R_is_empty(rows[-1]) else 0
+            cl_opts = [None]
+            seen_r = [set() for _ in range(R + 1)]
+            if n >= 2:
+                for b in range(R + 1):
+                    for lo, hi in ((1, 1), (2, n), (1, n)):
+                        if lo <= hi and _aligned(rows, b, lo, hi) and (lo, hi) not in seen_r[b]:
+                            seen_r[b].add((lo, hi))
+                            cl_opts.append((b, lo, hi))
+            for hmask in range(1 << (R + 1)):
+                for cl in (cl_opts if hmask == 0 else [None]):
+                    rules = [[(hmask >> b) & 1, None] for b in range(R + 1)]
+                    if cl:
+                        rules[cl[0]][1] = [cl[1], cl[2]]
+                    yield {'fam': 'table', 'ast': t_ast(cols, bars, rows, rules, final=final)}
+
+
+def R_is_empty(row):
+    return R.row_is_empty(row)
+
+
+def _aligned(rows, b, lo, hi):
+    return R.cline_aligned(rows, b, lo, hi)
+
+
+def gen_T6(nmax):
+    """\\vline at the start / end of cells; rows wider than the preamble (\\multicolumn beyond the declared columns,
+    surplus cells)"""
+    for n in range(2, nmax + 1):
+        for which in ('none', 'all', 'alt'):
+            cols, bars = _pair(n, which)
+            for ks in itertools.product(['M', 'VL', 'VR', 'VB'], repeat=n):
+                if all(k == 'M' for k in ks):
+                    continue
+                rows = [[[1, None, k] for k in ks], plain_rows(n, 1)[0]]
+                yield {'fam': 'table', 'ast': t_ast(cols, bars, rows, [[0, None]] * 3)}
+                rows = [plain_rows(n, 1)[0], [[1, None, k] for k in ks]]
+                yield {'fam': 'table', 'ast': t_ast(cols, bars, rows, [[1, None], [0, None], [1, None]])}
+    for n in (1, 2, 3):
+        cols = ''.join(CYC[i % 3] for i in range(n))
+        for mask in range(1 << (n + 1)):
+            bars = bars_list(mask, n)
+            for spec in MCSPECS:
+                wide = [[[n + 1, spec, 'M']],                                         # one cell wider than the table
+                        plain_rows(n - 1, 1)[0] + [[2, spec, 'M']]]                    # last cell sticks out by one
+                for w in (wide if n > 1 else wide[:1]):
+                    yield {'fam': 'table', 'ast': t_ast(cols, bars, [plain_rows(n, 1)[0], w, plain_rows(n, 1)[0]],
+                                                        [[0, None]] * 4)}
+            yield {'fam': 'table', 'ast': t_ast(cols, bars, [plain_rows(n + 1, 1)[0], plain_rows(n, 1)[0]],
+                                                [[0, None]] * 3)}                        # a surplus ordinary cell
 
 
 def bars_list(mask, n):
@@ -531,6 +631,32 @@ def label_shape(shape, krot, lrot, tpat):
     return lab(shape, 0)
 
 
+def gen_LS(d, full):
+    """two sibling lists at depth d inside one item: a chain of d-1 single-item lists, whose innermost item holds two
+    lists of 1-3 one-paragraph items each (with text around them, or nothing but the two lists); all kinds; an
+    enumerate sibling also with \\setcounter{enum..}{4} before its first item.  Run under the article class so that
+    item numbers exist"""
+    K = R.LIST_KINDS
+    if full:
+        chains = list(itertools.product(K, repeat=d - 1))
+    else:
+        chains = sorted(set([(k,) * (d - 1) for k in K] + [tuple(K[(i + j) % 3] for j in range(d - 1)) for i in range(3)]))
+    for chain in chains:
+        for k1 in K:
+            for k2 in K:
+                for n1 in (1, 2, 3):
+                    for n2 in (1, 2, 3):
+                        for st1 in ((0, 4) if k1 == 'enumerate' else (0,)):
+                            for st2 in ((0, 4) if k2 == 'enumerate' else (0,)):
+                                for ctype in ('N2', 'N2B'):
+                                    l1 = [k1, [[0, 'P1', None] for _ in range(n1)], st1]
+                                    l2 = [k2, [[0, 'P1', None] for _ in range(n2)], st2]
+                                    ast = [chain[-1], [[0, ctype, [l1, l2]], [0, 'P1', None]]]
+                                    for k in reversed(chain[:-1]):
+                                        ast = [k, [[0, 'NB', ast], [0, 'P1', None]]]
+                                    yield {'fam': 'list', 'ast': ast, 'article': 1}
+
+
 def _sh_depth(sh):
     return 1 + max([_sh_depth(x) for x in sh if x is not None] or [0])
 
@@ -555,7 +681,7 @@ def gen_L2(depth, maxitems, total, min_total, min_width=1, min_depth=1, diag=0):
 
 # ---------------------------------------------------------------------------
 FAMILIES = {
-    'T1': gen_T1, 'T2': gen_T2, 'T2C': gen_T2C, 'T2V': gen_T2V, 'T3': gen_T3, 'T3mc': gen_T3mc, 'T4': gen_T4,
+    'T1': gen_T1, 'T2': gen_T2, 'T2C': gen_T2C, 'T2V': gen_T2V, 'T5': gen_T5, 'T6': gen_T6, 'LS': gen_LS, 'T3': gen_T3, 'T3mc': gen_T3mc, 'T4': gen_T4,
     'L1': gen_lists, 'L2': gen_L2,
 }
 
@@ -579,6 +705,11 @@ def plan(tier):
         # a spanning cell followed by >= 2 ordinary cells under a non-uniform preamble needs >= 4 columns
         p.append(('T2V', (4, 1, 2), 8, {}))
         p.append(('T2V', (5, 1, 1), 4, {}))
+        for n, r in ((1, 1), (1, 2), (2, 1), (2, 2), (3, 1), (3, 2)):
+            p.append(('T5', (n, r, 2), 4 if n * r >= 4 else 1, {}))
+        p.append(('T6', (3,), 1, {}))
+        for d in (2, 3, 4):
+            p.append(('LS', (d, 0), 4, {}))
         for n, r in ((2, 1), (2, 2), (3, 1), (3, 2)):
             p.append(('T2C', (n, r, 2, 0), 2, {}))
         p.append(('T3', (1, 1, KINDS_FULL), 1, {}))
@@ -617,6 +748,11 @@ def plan(tier):
         for n, r in ((2, 1), (2, 2), (3, 1), (3, 2), (3, 3), (4, 1), (4, 2), (5, 1)):
             for pair in (0, 1):
                 p.append(('T2C', (n, r, 2, pair), 16 if n * r >= 8 else 2, {}))
+        for n, r, e in ((1, 1, 3), (1, 2, 3), (1, 3, 3), (2, 1, 3), (2, 2, 3), (2, 3, 2), (3, 1, 3), (3, 2, 2), (3, 3, 2)):
+            p.append(('T5', (n, r, e), 16 if n * r >= 4 else 2, {}))
+        p.append(('T6', (4,), 4, {}))
+        for d in (2, 3, 4):
+            p.append(('LS', (d, 1), 16, {}))
         p.append(('T3', (1, 1, KINDS_FULL), 1, {}))
         p.append(('T3', (2, 1, KINDS_FULL), 1, {}))
         p.append(('T3', (1, 2, KINDS_FULL), 1, {}))
@@ -648,14 +784,16 @@ SUMMARY = {
               'labellings each. tables: preambles of 1-3 columns (types lcrp, lcp for 3 columns); span/rule grids 1-3 x 1-3 '
               'with <=2 multicolumns (3x3 with all bars: <=1); cline pairs up to 3x2; vertical-bar/alignment family up to 3x2 '
               'plus 4x1 (<=2 multicolumns) and 5x1 (<=1), all 2^(n+1) bar subsets; cell '
-              'contents 1x1..3x1 full menu of 13, 2x2 menu of 6, 3x2 and 2x3 menu of 4'),
+              'contents 1x1..3x1 full menu of 13, 2x2 menu of 6, 3x2 and 2x3 menu of 4; content-less rows: grids 1-3 x 1-2 '
+              'with <=2 such rows; vline / over-wide rows up to 3 columns; sibling-list family depth 2-4 (article class)'),
     'thorough': ('lists: all labelled trees depth<=4, <=3 items/list, <=4 items in total (article / blank-line spelling: <=3); '
                  'all shapes depth<=4 with <=2 items/list (3 labellings), depth<=3 with <=3 items/list up to 8 items and '
                  'depth 4 with <=3 items/list up to 7 items (18 labellings). tables: preambles of 1-5 columns (types lcrp up '
                  'to 3, lcp for 4, lp for 5); span/rule grids 1-4 x 1-3 with <=2 multicolumns and 5 preamble/spec pairs '
                  '(4x3: <=1 for pairs 2-5), 1-5 x 4 and 5x3 with <=1 multicolumn; cline pairs up to 3x3, 4x2, 5x1; '
                  'vertical-bar family up to 3x3, 4x2, 5x1; cell contents up to 2x2 full menu of 13, 3x2/2x3 menu of 6, '
-                 '3x3 menu of 3, 5x2/4x3 menu of 2'),
+                 '3x3 menu of 3, 5x2/4x3 menu of 2; content-less rows: grids 1-3 x 1-3 with <=3 (larger grids <=2) such rows; '
+                 'vline / over-wide rows up to 4 columns; sibling-list family depth 2-4 with all kind chains (article class)'),
 }
 
 
@@ -716,4 +854,5 @@ def run(tier, seed, rep):
     core.merge_all(run_block, blocks, rep)
     return {'exhaustive': True, 'bounds': bounds, 'blocks': len(blocks),
             'floors': {'evaluations': 50000 if tier == 'quick' else 500000,
-                       'tables_with_cline': 5000, 'tables_with_multicolumn': 5000, 'fam_L1': 5000}}
+                       'tables_with_cline': 5000, 'tables_with_multicolumn': 5000, 'fam_L1': 5000,
+                       'fam_T5': 3000, 'fam_T6': 500, 'fam_LS': 3000}}
